@@ -17,7 +17,7 @@ CONSTANTS Objects,       \* what the object is built from (diagram ids / matrix 
           MaxCalls
 VARIABLES kind, obj, state, hist
 vars == <<kind, obj, state, hist>>
-Kinds == {"haigh", "matrix"}
+Kinds == DOMAIN Objects
 Init == /\ kind \in Kinds /\ obj \in Objects[kind] /\ state = obj /\ hist = <<>>
 (* the call as specified: the object's state is untouched *)
 Call(g, x) == /\ Len(hist) < MaxCalls
